@@ -941,11 +941,31 @@ func ruleBatchDelivery(c *Ctx, r *R) {
 			if a.send && fieldOfChan(a.ch) == "waiting" && a.body != nil {
 				// ... followed by a blocking wait on batchC: in the arm itself, or - one select in a loop whose announcing arm
 				// is disabled after its first use - by going round to the same select
+				waitsOnBatch := func(s2 *ssa.Select) bool {
+					if !s2.Blocking {
+						return false
+					}
+					for _, st := range s2.States {
+						if st.Dir == types.RecvOnly && fieldOfChan(st.Chan) == "batchC" {
+							return true
+						}
+					}
+					return false
+				}
 				instrs(nx, func(sb *ssa.BasicBlock, _ int, in ssa.Instruction) {
-					if s2, ok := in.(*ssa.Select); ok && s2.Blocking && (sb == a.body || reaches(a.body, sb)) {
-						for _, st := range s2.States {
-							if st.Dir == types.RecvOnly && fieldOfChan(st.Chan) == "batchC" {
-								ann = true
+					if !(sb == a.body || reaches(a.body, sb)) {
+						return
+					}
+					if s2, ok := in.(*ssa.Select); ok && waitsOnBatch(s2) {
+						ann = true
+					}
+					// ... or in a helper of the package the arm hands over to (return iter.awaitBatch(ctx))
+					if call, ok := in.(*ssa.Call); ok {
+						if cal := staticCallee(&call.Call); cal != nil && cal.Blocks != nil && cal.Parent() == nil && rootFn(cal).Pkg == rootFn(nx).Pkg {
+							for _, di := range deepInstrs(cal, 2) {
+								if s2, ok := di.in.(*ssa.Select); ok && waitsOnBatch(s2) {
+									ann = true
+								}
 							}
 						}
 					}
